@@ -1,6 +1,6 @@
 SPECIFICATION Spec
 CONSTANTS
-  Fams = {"single", "disjoint", "adjacent"}
+  Fams = {"single", "disjoint"}
   MaxRoutes = 2
   PerClass = 2
   DEV_RemoveNoRebuild = FALSE
